@@ -16,7 +16,7 @@ import (
 
 // Run carries the state of one check run: PRNG, counters, violations, samples.
 type Run struct {
-	aborted bool // a session hit the watchdog: stop generating work, judge what is there, exit
+	aborted    bool // a session hit the watchdog: stop generating work, judge what is there, exit
 	Prop, Tier string
 	Seed       int64
 	Rng        *rand.Rand
